@@ -75,6 +75,21 @@ func Decide(t fataler, s *graph.Scenario, obsOrders []int, tag string) {
 		}
 		in.Extra = append(in.Extra, &graph.PlainWrapPP{Plan: plan})
 	}
+	// some components are "ready made": a post-processor hands the registered instance itself back before
+	// instantiation, so the container neither populates nor initialises it - and applies the after-initialization
+	// callbacks exactly once
+	readyMade := map[int]bool{}
+	if strings.Contains(tag, "+readymade") {
+		plan := map[string]graph.WrapPlan{}
+		for i, n := range s.Nodes {
+			if n.Variant != 'X' && n.Variant != 'Y' && !wrappedBefore[i] && (i+len(s.Nodes))%3 == 1 {
+				nm, _ := model.NameOf(in.Comps[i])
+				plan[nm] = graph.WrapPlan{Inst: graph.WrapSame}
+				readyMade[i] = true
+			}
+		}
+		in.Extra = append(in.Extra, &graph.WrapPP{Plan: plan, IDOf: idOf})
+	}
 	in.Run()
 	desc := fmt.Sprintf("%s %s obs=%v", tag, s.Shape(), obsOrders)
 	if in.Out.Panic != nil {
@@ -89,8 +104,8 @@ func Decide(t fataler, s *graph.Scenario, obsOrders []int, tag string) {
 		// every populated point holds an admissible registered component (no pre-filled value survives where a target exists)
 		must, _ := g.Created()
 		for _, c := range g.Pop {
-			if !must[c] {
-				continue // a lazy component nobody needed is never populated
+			if !must[c] || (c.ID >= 0 && readyMade[c.ID]) {
+				continue // a lazy component nobody needed is never populated; neither is a ready-made one
 			}
 			for _, p := range g.Points[c] {
 				if len(p.Cands) == 0 {
@@ -223,6 +238,21 @@ func Decide(t fataler, s *graph.Scenario, obsOrders []int, tag string) {
 		c := in.Comp(id)
 		l := lives[id]
 		b := in.Behs[id]
+		if readyMade[id] && hasPPNode && len(l.aps) == 1 && len(l.init) == 1 {
+			// created while the chain was being assembled (pulled in by a post-processor node) before the processor that
+			// hands instances back had joined it: an ordinary creation, judged by the ordinary rules below
+			readyMade[id] = false
+		}
+		if readyMade[id] {
+			if len(l.before)+len(l.aps)+len(l.init)+len(l.waps)+len(l.winit) != 0 || b.InitCalls != 0 || b.APSCalls != 0 {
+				t.Fatalf("C05: %s was handed back ready made before instantiation, yet it went through population / initialization (before %d, AfterPropertiesSet %d, Init %d)\n%s\nlog: %s", c.Name, len(l.before), b.APSCalls, b.InitCalls, desc, dump())
+			}
+			if len(l.after) > k || (!hasPPNode && len(l.after) != 0 && len(l.after) != k) {
+				t.Fatalf("C05: %s (ready made): %d after-initialization callbacks for %d observing post-processors (exactly once each expected)\n%s\nlog: %s", c.Name, len(l.after), k, desc, dump())
+			}
+			labels = append(labels, "ready-made-before-instantiation")
+			continue
+		}
 		created := len(l.init) > 0 || len(l.aps) > 0 || len(l.before) > 0
 		if !c.Lazy && !created {
 			t.Fatalf("C05: eager component %s was never initialised\n%s\nlog: %s", c.Name, desc, dump())
@@ -329,8 +359,8 @@ func Decide(t fataler, s *graph.Scenario, obsOrders []int, tag string) {
 			return m
 		}
 		for _, y := range holds[id] {
-			if reach[y][id] {
-				continue // y depends back on id
+			if reach[y][id] || readyMade[y] {
+				continue // y depends back on id / y is taken as it is, it has no initialization to finish
 			}
 			if len(lives[y].init) == 0 {
 				t.Fatalf("C05: %s holds %s which never ran Init\n%s\nlog: %s", c.Name, in.Comp(y).Name, desc, dump())
@@ -393,6 +423,11 @@ func TestLifecycle(t *testing.T) {
 		}
 		if rapid.IntRange(0, 2).Draw(t, "wrapbefore") == 0 {
 			tag += "+wrapbefore"
+		}
+		// (not together with pre-filled points: what a ready-made component would have pulled in is never created, so
+		// the model's "must be populated" set does not apply)
+		if !strings.Contains(tag, "+prefill") && rapid.IntRange(0, 3).Draw(t, "readymade") == 0 {
+			tag += "+readymade"
 		}
 		Decide(t, s, genObs(t), tag)
 	})
